@@ -290,7 +290,7 @@ def file_verdicts(v, obs_path, verdicts, what, kind="text", classes=None):
 
 
 LEX_FAMILIES = [("TLog", "ALog", 5, 6), ("TCmp", "ACmp", 6, 7), ("TSin", "ASin", 4, 5), ("TBrace", "ABrace", 5, 6),
-                ("TCall", "ACall", 5, 7)]
+                ("TCall", "ACall", 5, 7), ("TPre", "APre", 5, 6)]
 
 
 def lex_enumeration(v, pid, tier, families, what):
@@ -354,7 +354,7 @@ def lex_dir_b(v, pid, tier, what):
 def c13(a):
     v = Verdict("C13", a.tier, "model_checking")
     what = "tokenisation differs from the documented lexical rules"
-    n = lex_enumeration(v, "C13", a.tier, LEX_FAMILIES[:4], what)
+    n = lex_enumeration(v, "C13", a.tier, LEX_FAMILIES[:4] + LEX_FAMILIES[5:], what)
     lex_dir_b(v, "C13", a.tier, what)
     v.cov["rule"] = "every text up to length L over each family alphabet (exhaustive, distinct by construction); non-trivial = non-empty"
     v.cov["distinct_nontrivial"] = n
@@ -398,7 +398,7 @@ def c08(a):
         obs.append((tab, obsp))
     for tab in sorted({t for t, _ in obs}):
         judge_and_classify(v, "C08", [p for t, p in obs if t == tab], f"dirA-{tab}", what)
-    lex_enumeration(v, "C08", a.tier, LEX_FAMILIES[4:], what)
+    lex_enumeration(v, "C08", a.tier, LEX_FAMILIES[4:5], what)
     expr_dir_b(v, "C08", a.tier, ["flat", "flat_wo", "deep"], what, families=("calls",))
     v.notes.append(f"direction A: {ncases} (tree, non-empty subset of binary operators in call form, extra parentheses) cases; "
                    "MC_Call proves the abstract desugaring inverts the rendering and that the tokenizer model with a stack of "
@@ -1449,6 +1449,35 @@ def t8_table_json():
     return T8_JSON
 
 
+def sendsync_assertions(v, what):
+    """Builds the crate that asserts Send + Sync for the expression types; a Send/Sync error of the type checker is a violation."""
+    import subprocess, shutil
+    ss = os.path.join(vlib.ROOT, "harness_sendsync")
+    if not os.path.exists(os.path.join(ss, "Cargo.lock")):
+        shutil.copy("/repo/Cargo.lock", os.path.join(ss, "Cargo.lock"))
+    p = subprocess.run(["cargo", "build", "--release", "--offline"], cwd=ss, stdout=subprocess.PIPE, stderr=subprocess.STDOUT, text=True,
+                       env=dict(os.environ, CARGO_NET_OFFLINE="true"))
+    if p.returncode != 0:
+        if "cannot be sent between threads safely" in p.stdout or "cannot be shared between threads safely" in p.stdout:
+            v.violation({"compiler": p.stdout[-3000:]}, f"{what}: FlatEx / DeepEx over thread-safe data types are not Send + Sync any more (type checker)")
+            return False
+        print(p.stdout[-3000:])
+        raise vlib.ToolError("the Send/Sync assertion crate does not build for another reason")
+    v.notes.append("Send + Sync of FlatEx<f32|f64>, DeepEx<f32|f64>, FlatExVal<i32,f64>, Val<i32,f64> decided by the type checker "
+                   "(harness_sendsync builds)")
+    return True
+
+
+def c20_types_only(a):
+    """The recorder (which shares expressions between threads) does not build: decide C20 at the type level alone."""
+    v = Verdict("C20", a.tier, "model_checking")
+    if sendsync_assertions(v, "concurrent use differs from a sequential run"):
+        raise vlib.ToolError("cargo build of the recorder failed although the expression types are Send + Sync")
+    v.notes.append("the recorder does not build against this tree because expressions cannot be shared between threads any more; "
+                   "only the type-level assertions were evaluated")
+    return v.finish()
+
+
 @register("C20")
 def c20(a):
     v = Verdict("C20", a.tier, "model_checking")
@@ -1468,21 +1497,7 @@ def c20(a):
     v.notes.append("Threads.tla: every interleaving of 3-4 clients x 3-4 parse/eval calls incl. the once-cell of the lazily built regexes gives "
                    "each client the sequential results; pool immutable; cell initialised once; no deadlock; all clients finish under fairness")
     # (2) compile-time Send + Sync
-    import subprocess, shutil
-    ss = os.path.join(vlib.ROOT, "harness_sendsync")
-    if not os.path.exists(os.path.join(ss, "Cargo.lock")):
-        shutil.copy("/repo/Cargo.lock", os.path.join(ss, "Cargo.lock"))
-    p = subprocess.run(["cargo", "build", "--release", "--offline"], cwd=ss, stdout=subprocess.PIPE, stderr=subprocess.STDOUT, text=True,
-                       env=dict(os.environ, CARGO_NET_OFFLINE="true"))
-    if p.returncode != 0:
-        if "cannot be sent between threads safely" in p.stdout or "cannot be shared between threads safely" in p.stdout:
-            v.violation({"compiler": p.stdout[-3000:]}, f"{what}: FlatEx / DeepEx over thread-safe data types are not Send + Sync any more (type checker)")
-        else:
-            print(p.stdout[-3000:])
-            raise vlib.ToolError("the Send/Sync assertion crate does not build for another reason")
-    else:
-        v.notes.append("Send + Sync of FlatEx<f32|f64>, DeepEx<f32|f64>, FlatExVal<i32,f64>, Val<i32,f64> decided by the type checker "
-                       "(harness_sendsync builds)")
+    sendsync_assertions(v, what)
     # (3) real threads: fresh processes so that the lazy statics really are uninitialised
     texts = ["x1*2+sn(x2)|K", "cs(x1 - 3) * (x2 mn 4)", "-(x1+2+3)", "(((x1", "1 2", "x1 pw 2 & x2 % 3"]
     # a second table of the same size over the same data type whose names sort differently (`**` next to `*`): a global that is
